@@ -580,10 +580,14 @@ func (pe *PolicyEngine) updatePodOwnersToRepresentativePodMapIfRequired(deletedP
 }
 
 func (pe *PolicyEngine) deleteNetworkPolicy(np *netv1.NetworkPolicy) error {
-	if policiesMap, ok := pe.netpolsMap[np.Namespace]; ok {
+	netpolNamespace := np.Namespace
+	if netpolNamespace == "" { // stored under the default namespace by insertNetworkPolicy
+		netpolNamespace = metav1.NamespaceDefault
+	}
+	if policiesMap, ok := pe.netpolsMap[netpolNamespace]; ok {
 		delete(policiesMap, np.Name)
 		if len(policiesMap) == 0 {
-			delete(pe.netpolsMap, np.Namespace)
+			delete(pe.netpolsMap, netpolNamespace)
 		}
 	}
 
